@@ -40,6 +40,11 @@ const (
 	tRule  ty = "Rule"       // ignorefiles.rule: the model's structure Rule (val, negated, negAfter)
 	tRules ty = "List Rule"
 	tExcl  ty = "Bool × Bool" // ignorefiles.ExcludesResult: (Excluded, Dominating)
+	tChar  ty = "Char"        // a byte of a string / a tar type flag
+	tOsErr ty = "Go.OsErr"    // an error of the os package (nil / not-exist / other)
+	tStat  ty = "Go.FileInfo" // os.FileInfo as far as the translated code looks at it
+	tInfo  ty = "Go.UnpackInfo" // unpackinfo.UnpackInfo: (path, typeflag)
+	tFS    ty = "FS"
 	tUnknown ty = "?"
 )
 
@@ -71,6 +76,10 @@ var lib = map[string]libFn{
 	"filepath.IsAbs":      {"Go.isAbs", []ty{tStr}, []ty{tBool}},
 	"fs.ValidPath":        {"Go.validPath", []ty{tStr}, []ty{tBool}},
 	"filepath.Abs":        {"Go.pathAbs cwd", []ty{tStr}, []ty{tStr, tErr}},
+	"filepath.Rel":        {"Go.pathRel", []ty{tStr, tStr}, []ty{tStr, tErr}},
+	"strings.Split":       {"Go.split", []ty{tStr, tStr}, []ty{tStrs}},
+	"os.Lstat":            {"Go.lstat fs", []ty{tStr}, []ty{tStat, tOsErr}},
+	"os.IsNotExist":       {"Go.isNotExist", []ty{tOsErr}, []ty{tBool}},
 }
 
 // one-field structs that the model represents by their field
@@ -87,7 +96,21 @@ type target struct {
 }
 
 // types of the extra parameters
-var extraTypes = map[string]ty{"cwd": tStr, "allowSymlinkTargets": tStrs, "rules": tRules}
+var extraTypes = map[string]ty{"cwd": tStr, "allowSymlinkTargets": tStrs, "rules": tRules, "fs": tFS}
+
+// parameters of pointer-to-struct type that are passed as the fields the code reads: parameter name ->
+// field -> (Lean parameter name, type)
+var structParams = map[string]map[string][2]string{
+	"header": {"Name": {"hdrName", string(tStr)}, "Typeflag": {"hdrTypeflag", string(tChar)}},
+}
+
+// fields of unpackinfo.UnpackInfo kept by the model's structure (the time and mode fields are carried
+// to RestoreInfo unchanged and are not part of the translated result)
+var infoFields = map[string][2]string{"Path": {"path", string(tStr)}, "Typeflag": {"typeflag", string(tChar)}}
+
+// tar type flag constants
+var tarFlags = map[string]string{"tar.TypeReg": "'0'", "tar.TypeRegA": "(Char.ofNat 0)", "tar.TypeLink": "'1'", "tar.TypeSymlink": "'2'",
+	"tar.TypeChar": "'3'", "tar.TypeBlock": "'4'", "tar.TypeDir": "'5'", "tar.TypeFifo": "'6'", "tar.TypeXHeader": "'x'", "tar.TypeXGlobalHeader": "'g'"}
 
 // fields of the structs the model has a structure for: Go field -> (Lean field, type)
 var ruleFields = map[string][2]string{"val": {"val", string(tStr)}, "negated": {"negated", string(tBool)}, "negationsAfter": {"negAfter", string(tBool)}}
@@ -110,6 +133,11 @@ var targets = []target{
 	{"slug.go", "Packer", "allowedSymlinkTarget", "allowedSymlinkTarget", []string{"allowSymlinkTargets"}},
 	{"slug.go", "Packer", "validSymlink", "validSymlink", []string{"cwd", "allowSymlinkTargets"}},
 	{"internal/ignorefiles/ignorerules.go", "Ruleset", "Excludes", "excludes", []string{"rules"}},
+	{"internal/unpackinfo/unpackinfo.go", "UnpackInfo", "IsSymlink", "isSymlink", nil},
+	{"internal/unpackinfo/unpackinfo.go", "UnpackInfo", "IsDirectory", "isDirectory", nil},
+	{"internal/unpackinfo/unpackinfo.go", "UnpackInfo", "IsTypeX", "isTypeX", nil},
+	{"internal/unpackinfo/unpackinfo.go", "UnpackInfo", "IsRegular", "isRegular", nil},
+	{"internal/unpackinfo/unpackinfo.go", "", "NewUnpackInfo", "newUnpackInfo", []string{"fs"}},
 }
 
 var leanKeywords = map[string]bool{"end": true, "from": true, "at": true, "have": true, "show": true, "match": true,
@@ -133,6 +161,7 @@ type sig struct {
 
 type tr struct {
 	recvName string   // name of the receiver variable ("" if none)
+	recvType string   // its type name
 	extra    []string // extra parameters available in this function
 	fset   *token.FileSet
 	sigs   map[string]sig // translated functions by Go name
@@ -217,6 +246,12 @@ func typeOf(e ast.Expr) ty {
 		if x.Name == "rule" {
 			return tRule
 		}
+		if x.Name == "UnpackInfo" {
+			return tInfo
+		}
+		if x.Name == "byte" {
+			return tChar
+		}
 	case *ast.ArrayType:
 		if x.Len == nil && typeOf(x.Elt) == tStr {
 			return tStrs
@@ -227,6 +262,43 @@ func typeOf(e ast.Expr) ty {
 	}
 	fail("unsupported type %T", e)
 	return tUnknown
+}
+
+// exprName: "pkg.Name" of a selector on an identifier ("" otherwise)
+func exprName(e ast.Expr) string {
+	if x, ok := e.(*ast.SelectorExpr); ok {
+		if id, ok := x.X.(*ast.Ident); ok {
+			return id.Name + "." + x.Sel.Name
+		}
+	}
+	return ""
+}
+
+// isModeSymlinkTest: fi.Mode()&fs.ModeSymlink (or os.ModeSymlink)
+func isModeSymlinkTest(e ast.Expr) bool {
+	b, ok := e.(*ast.BinaryExpr)
+	if !ok || b.Op != token.AND {
+		return false
+	}
+	if n := exprName(b.Y); n != "fs.ModeSymlink" && n != "os.ModeSymlink" {
+		return false
+	}
+	c, ok := b.X.(*ast.CallExpr)
+	if !ok || len(c.Args) != 0 {
+		return false
+	}
+	sel, ok := c.Fun.(*ast.SelectorExpr)
+	return ok && sel.Sel.Name == "Mode"
+}
+
+func exprText(e ast.Expr) string {
+	switch x := e.(type) {
+	case *ast.Ident:
+		return x.Name
+	case *ast.SelectorExpr:
+		return exprText(x.X) + "." + x.Sel.Name
+	}
+	return "?"
 }
 
 func callName(e ast.Expr) string {
@@ -257,6 +329,12 @@ func (t *tr) expr(e ast.Expr, want ty) (string, ty) {
 			return leanStrLit(s), tStr
 		case token.INT:
 			return "(" + x.Value + " : Int)", tInt
+		case token.CHAR:
+			c, _, _, err := strconv.UnquoteChar(x.Value[1:len(x.Value)-1], '\'')
+			if err != nil {
+				fail("char literal %s", x.Value)
+			}
+			return strings.TrimSuffix(strings.TrimPrefix(leanStrLit(string(c)), "(["), "] : Str)"), tChar
 		}
 		fail("literal %s", x.Value)
 	case *ast.Ident:
@@ -309,6 +387,27 @@ func (t *tr) expr(e ast.Expr, want ty) (string, ty) {
 					return "true", tBool
 				}
 			}
+			if isModeSymlinkTest(x.X) {
+				if lit, ok := x.Y.(*ast.BasicLit); ok && lit.Value == "0" {
+					c := x.X.(*ast.BinaryExpr).X.(*ast.CallExpr).Fun.(*ast.SelectorExpr).X
+					fi, tf := t.expr(c, tStat)
+					if tf != tStat {
+						fail("Mode() of %s", tf)
+					}
+					if x.Op == token.NEQ {
+						return "(Go.isSymlinkMode " + fi + ")", tBool
+					}
+					return "(!(Go.isSymlinkMode " + fi + "))", tBool
+				}
+			}
+			if id, ok := x.Y.(*ast.Ident); ok && id.Name == "nil" {
+				if a, ta := t.expr(x.X, ""); ta == tOsErr {
+					if x.Op == token.NEQ {
+						return "(Go.nonNil " + a + ")", tBool
+					}
+					return "(!(Go.nonNil " + a + "))", tBool
+				}
+			}
 			a, ta := t.expr(x.X, "")
 			b, tb := t.expr(x.Y, ta)
 			if ta == tBool && tb == tBool {
@@ -351,6 +450,19 @@ func (t *tr) expr(e ast.Expr, want ty) (string, ty) {
 			return "(" + a + " - " + b + ")", tInt
 		}
 		fail("binary operator %s", x.Op)
+	case *ast.IndexExpr:
+		a, ta := t.expr(x.X, "")
+		i, ti := t.expr(x.Index, tInt)
+		if ti != tInt {
+			fail("index of type %s", ti)
+		}
+		switch ta {
+		case tStr:
+			return "(Go.byteAt " + a + " " + i + ")", tChar
+		case tStrs:
+			return "(Go.listAt " + a + " " + i + ")", tStr
+		}
+		fail("index into %s", ta)
 	case *ast.SliceExpr:
 		if x.Slice3 {
 			fail("3-index slice")
@@ -386,6 +498,30 @@ func (t *tr) expr(e ast.Expr, want ty) (string, ty) {
 					}
 				}
 			}
+		}
+		if id, ok := x.Type.(*ast.Ident); ok && id.Name == "UnpackInfo" {
+			pathV, flagV := "([] : Str)", "(Char.ofNat 0)"
+			for _, el := range x.Elts {
+				kv, ok := el.(*ast.KeyValueExpr)
+				if !ok {
+					fail("positional composite literal")
+				}
+				k, _ := kv.Key.(*ast.Ident)
+				if k == nil {
+					fail("composite literal key")
+				}
+				switch k.Name {
+				case "Path":
+					pathV, _ = t.expr(kv.Value, tStr)
+				case "Typeflag":
+					flagV, _ = t.expr(kv.Value, tChar)
+				case "OriginalAccessTime", "OriginalModTime", "OriginalMode":
+					// carried to RestoreInfo unchanged; not part of the model's structure
+				default:
+					fail("field %s of UnpackInfo", k.Name)
+				}
+			}
+			return "({ path := " + pathV + ", typeflag := " + flagV + " } : Go.UnpackInfo)", tInfo
 		}
 		if id, ok := x.Type.(*ast.Ident); ok {
 			if fields, ok := tupleStructs[id.Name]; ok {
@@ -427,7 +563,28 @@ func (t *tr) expr(e ast.Expr, want ty) (string, ty) {
 				}
 			}
 		}
+		if fl, ok := tarFlags[exprName(x)]; ok {
+			return fl, tChar
+		}
 		if id, ok := x.X.(*ast.Ident); ok {
+			if fields, ok := structParams[id.Name]; ok {
+				if _, shadow := t.lookup(id.Name); !shadow {
+					if f, ok := fields[x.Sel.Name]; ok {
+						return f[0], ty(f[1])
+					}
+					fail("field %s of %s", x.Sel.Name, id.Name)
+				}
+			}
+			if l, ok := t.lookup(id.Name); ok && t.types[l] == tInfo {
+				if f, ok := infoFields[x.Sel.Name]; ok {
+					return l + "." + f[0], ty(f[1])
+				}
+			}
+			if t.recvName != "" && id.Name == t.recvName && t.recvType == "UnpackInfo" {
+				if f, ok := infoFields[x.Sel.Name]; ok {
+					return t.recvName + "." + f[0], ty(f[1])
+				}
+			}
 			if l, ok := t.lookup(id.Name); ok && t.types[l] == tRule {
 				if f, ok := ruleFields[x.Sel.Name]; ok {
 					return l + "." + f[0], ty(f[1])
@@ -446,7 +603,10 @@ func (t *tr) expr(e ast.Expr, want ty) (string, ty) {
 			name = strings.TrimPrefix(name, t.recvName+".") // a method of the same receiver
 		}
 		if name == "len" && len(x.Args) == 1 {
-			s, ts := t.expr(x.Args[0], tStr)
+			s, ts := t.expr(x.Args[0], "")
+			if ts == tStrs {
+				return "(Go.lenList " + s + ")", tInt
+			}
 			if ts != tStr {
 				fail("len of a non-string")
 			}
@@ -458,6 +618,11 @@ func (t *tr) expr(e ast.Expr, want ty) (string, ty) {
 		var f sig
 		if sel, ok := x.Fun.(*ast.SelectorExpr); ok {
 			if id, ok := sel.X.(*ast.Ident); ok {
+				if l, ok := t.lookup(id.Name); ok && t.types[l] == tInfo {
+					if sg, ok := t.sigs[sel.Sel.Name]; ok && len(x.Args) == 0 {
+						return "(" + sg.lean + " " + l + ")", sg.res[0]
+					}
+				}
 				if l, ok := t.lookup(id.Name); ok {
 					if m, ok := methods[string(t.types[l])+"."+sel.Sel.Name]; ok {
 						f = sig{m.lean + " " + l, m.args, m.res, nil}
@@ -617,6 +782,8 @@ func zero(typ ty) string {
 		return "false"
 	case tExcl:
 		return "(false, false)"
+	case tInfo:
+		return "({ path := ([] : Str), typeflag := (Char.ofNat 0) } : Go.UnpackInfo)"
 	}
 	fail("zero value of %s", typ)
 	return ""
@@ -757,6 +924,49 @@ func (t *tr) stmt(ind int, s ast.Stmt) {
 		}
 		t.block(ind+1, x.Body.List)
 		t.pop()
+	case *ast.ForStmt:
+		// for i := 0; i < N; i++ { ... }  with i not assigned in the body
+		init, ok1 := x.Init.(*ast.AssignStmt)
+		cond, ok2 := x.Cond.(*ast.BinaryExpr)
+		post, ok3 := x.Post.(*ast.IncDecStmt)
+		if !ok1 || !ok2 || !ok3 || init.Tok != token.DEFINE || len(init.Lhs) != 1 || len(init.Rhs) != 1 || cond.Op != token.LSS || post.Tok != token.INC {
+			fail("for statement shape")
+		}
+		iv, ok := init.Lhs[0].(*ast.Ident)
+		if !ok || exprText(cond.X) != iv.Name || exprText(post.X) != iv.Name {
+			fail("for statement variable")
+		}
+		if lit, ok := init.Rhs[0].(*ast.BasicLit); !ok || lit.Value != "0" {
+			fail("for statement start")
+		}
+		assigned := false
+		ast.Inspect(x.Body, func(n ast.Node) bool {
+			switch a := n.(type) {
+			case *ast.AssignStmt:
+				for _, l := range a.Lhs {
+					if exprText(l) == iv.Name {
+						assigned = true
+					}
+				}
+			case *ast.IncDecStmt:
+				if exprText(a.X) == iv.Name {
+					assigned = true
+				}
+			}
+			return true
+		})
+		if assigned {
+			fail("loop variable assigned in the body")
+		}
+		t.push()
+		bound, tb := t.expr(cond.Y, tInt)
+		if tb != tInt {
+			fail("loop bound of type %s", tb)
+		}
+		v := t.declare(iv.Name, tInt)
+		t.emit(ind, fmt.Sprintf("for %s in Go.range0 %s do", v, bound))
+		t.block(ind+1, x.Body.List)
+		t.pop()
 	case *ast.BranchStmt:
 		switch x.Tok {
 		case token.CONTINUE:
@@ -797,7 +1007,29 @@ func findFunc(f *ast.File, recv, name string) *ast.FuncDecl {
 }
 
 func signature(fd *ast.FuncDecl) (names []string, args []ty, res []ty) {
+	// a value receiver of a modelled struct type is the first parameter
+	if fd.Recv != nil && len(fd.Recv.List) == 1 && len(fd.Recv.List[0].Names) == 1 {
+		if id, ok := fd.Recv.List[0].Type.(*ast.Ident); ok && id.Name == "UnpackInfo" {
+			names = append(names, fd.Recv.List[0].Names[0].Name)
+			args = append(args, tInfo)
+		}
+	}
 	for _, p := range fd.Type.Params.List {
+		// a pointer-to-struct parameter is passed as the fields the code reads
+		if len(p.Names) == 1 {
+			if fields, ok := structParams[p.Names[0].Name]; ok {
+				keys := make([]string, 0, len(fields))
+				for k := range fields {
+					keys = append(keys, k)
+				}
+				sort.Strings(keys)
+				for _, k := range keys {
+					names = append(names, "\x00"+fields[k][0]) // marked: not a Go variable
+					args = append(args, ty(fields[k][1]))
+				}
+				continue
+			}
+		}
 		pt := typeOf(p.Type)
 		for _, n := range p.Names {
 			names = append(names, n.Name)
@@ -833,6 +1065,13 @@ func translate(fset *token.FileSet, fd *ast.FuncDecl, tg target, sigs map[string
 	t := &tr{fset: fset, sigs: sigs, types: map[string]ty{}, used: map[string]int{}, res: res, extra: tg.extra}
 	if fd.Recv != nil && len(fd.Recv.List) == 1 && len(fd.Recv.List[0].Names) == 1 {
 		t.recvName = fd.Recv.List[0].Names[0].Name
+		rt := fd.Recv.List[0].Type
+		if st, ok := rt.(*ast.StarExpr); ok {
+			rt = st.X
+		}
+		if id, ok := rt.(*ast.Ident); ok {
+			t.recvType = id.Name
+		}
 	}
 	t.push()
 	var params []string
@@ -841,6 +1080,18 @@ func translate(fset *token.FileSet, fd *ast.FuncDecl, tg target, sigs map[string
 		params = append(params, fmt.Sprintf("(%s : %s)", e, extraTypes[e]))
 	}
 	for i, n := range names {
+		if strings.HasPrefix(n, "\x00") {
+			// a field of a struct parameter: a plain (immutable) Lean parameter
+			params = append(params, fmt.Sprintf("(%s : %s)", n[1:], args[i]))
+			continue
+		}
+		if args[i] == tInfo && n == t.recvName {
+			t.scopes[len(t.scopes)-1][n] = n
+			t.types[n] = tInfo
+			t.used[n]++
+			params = append(params, fmt.Sprintf("(%s : %s)", n, args[i]))
+			continue
+		}
 		l := t.declare(n, args[i])
 		params = append(params, fmt.Sprintf("(%s₀ : %s)", l, args[i]))
 	}
@@ -858,6 +1109,9 @@ func translate(fset *token.FileSet, fd *ast.FuncDecl, tg target, sigs map[string
 	}
 	t.emit(0, fmt.Sprintf("def %s %s : %s := Id.run do", tg.lean, strings.Join(params, " "), rt))
 	for i, n := range names {
+		if strings.HasPrefix(n, "\x00") || (args[i] == tInfo && n == t.recvName) {
+			continue
+		}
 		l, _ := t.lookup(n)
 		t.emit(1, fmt.Sprintf("let mut %s : %s := %s₀", l, args[i], l))
 	}
